@@ -2,7 +2,7 @@
 from ..vlib import WIDTHS, tobytes, values, nlimbs, boundary_values, rand_value, pairs
 from .. import witness as W
 
-BINS = ["ux_math"]
+BINS = ["ux_math", "ux_kern"]
 RULE = ("all pairs at BITS<=6 (exhaustive); otherwise consecutive Fibonacci-like pairs scaled to the width (all "
         "quotients 1), pairs built by running the continued fraction backwards with quotients from {1,2,2^31,2^32,2^33,"
         "huge}, a=b, a=b+-1, common factors 2^k and large odd factors (g*x, g*y with coprime x,y), values whose leading "
@@ -88,4 +88,101 @@ def scenarios(tier, rng):
             ps = family(bits, rng, 10)[:4] if quick else family(bits, rng, 20)[:10]
         for a, b in dict.fromkeys(ps):
             sc.append({"g": "math", "op": "gcd", "bits": bits, "a": tobytes(a), "b": tobytes(b), "w": W.gcd_witness(a, b)})
-    return {"ux_math": sc}
+    return {"ux_math": sc, "ux_kern": lehmer_scenarios(tier, rng)}
+
+
+B = 1 << 64
+
+
+def lehmer_scenarios(tier, rng):
+    """LehmerMatrix::{from, from_u64, from_u64_prefix, from_u128_prefix, apply, apply_u128, compose}."""
+    quick = tier == "quick"
+    sc = []
+    for bits in WIDTHS:
+        if bits == 0 or bits > 1100:
+            continue
+        if bits <= 5:
+            ps = [(a, b) for a in range(1 << bits) for b in range(a + 1)]
+        else:
+            cnt = 60 if quick else 500
+            ps = family(bits, rng, cnt)
+            if len(ps) > cnt:
+                ps = ps[:cnt // 2] + rng.sample(ps[cnt // 2:], cnt - cnt // 2)
+        for a, b in dict.fromkeys((max(a, b), min(a, b)) for a, b in ps):
+            sc.append({"g": "kern", "op": "lehmer", "bits": bits, "a": tobytes(a), "b": tobytes(b)})
+    # full 64-bit Euclid
+    for a, b in family(64, rng, 200 if quick else 2000):
+        a, b = max(a, b), min(a, b)
+        sc.append({"g": "kern", "op": "klehmer64", "a": tobytes(a), "b": tobytes(b)})
+    # prefix matrices, each checked on several extensions of the prefix
+    def exts(k):
+        full = (1 << k) - 1
+        out = [[k, tobytes(0), tobytes(0)], [k, tobytes(0), tobytes(full)], [k, tobytes(full), tobytes(0)],
+               [k, tobytes(full), tobytes(full)]]
+        for _ in range(2):
+            out.append([k, tobytes(rng.getrandbits(k)), tobytes(rng.getrandbits(k))])
+        return out
+    pre = []
+    for a, b in family(64, rng, 300 if quick else 3000):
+        a, b = max(a, b), min(a, b)
+        if a == 0:
+            continue
+        a0 = a << (64 - a.bit_length())
+        b0 = b << (64 - a.bit_length())
+        pre.append((a0, b0))
+    for _ in range(100 if quick else 2000):
+        a0 = rng.getrandbits(64) | 1 << 63
+        kind = rng.randrange(5)
+        if kind == 0:
+            b0 = rng.randrange(0, a0 + 1)
+        elif kind == 1:
+            b0 = a0 - rng.getrandbits(rng.randrange(1, 40))
+        elif kind == 2:
+            b0 = rng.getrandbits(rng.randrange(30, 36))       # around LIMIT = 2^32
+        elif kind == 3:
+            b0 = a0 // rng.randrange(1, 1 << rng.randrange(1, 33))
+        else:
+            b0 = (1 << 32) + rng.randrange(-3, 4)
+        pre.append((a0, max(0, min(b0, a0))))
+    for a0, b0 in dict.fromkeys(pre):
+        ex = exts(0)[:1] + exts(1) + exts(64) + exts(200 if not quick else 70)
+        sc.append({"g": "kern", "op": "klehmer_prefix", "a": tobytes(a0), "b": tobytes(b0), "ext": ex})
+    for a0, b0 in list(dict.fromkeys(pre))[:: 3]:
+        lo_a, lo_b = rng.getrandbits(64), rng.getrandbits(64)
+        r0, r1 = (a0 << 64) | lo_a, (b0 << 64) | lo_b
+        s = rng.randrange(0, 64)
+        r0 >>= s
+        r1 >>= s
+        if r0 >= r1:
+            sc.append({"g": "kern", "op": "klehmer_prefix128", "a": tobytes(r0), "b": tobytes(r1),
+                       "ext": exts(0)[:1] + exts(1) + exts(64)})
+    # apply_u128 and compose on small unimodular matrices built from quotient sequences
+    def cf_matrix(qs):
+        m = [1, 0, 0, 1, True]
+        for q in qs:
+            # one Euclid step (a, b) -> (b, a - q b) :  [[0, 1], [1, -q]]
+            m0, m1, m2, m3, sgn = m
+            m = [m2, m3, m0 + q * m2, m1 + q * m3, not sgn]
+        return m
+    for _ in range(60 if quick else 600):
+        qs = [rng.choice([1, 1, 2, 3, 7, 100]) for _ in range(rng.randrange(1, 12))]
+        m = cf_matrix(qs)
+        if max(m[:4]) >= 1 << 31:
+            continue
+        mj = [tobytes(m[0]), tobytes(m[1]), tobytes(m[2]), tobytes(m[3]), m[4]]
+        # (a, b) whose continued fraction starts with qs, so that the matrix is valid for it
+        x = rng.getrandbits(rng.randrange(20, 60)) + 2
+        y = rng.randrange(0, x)
+        for q in reversed(qs):
+            x, y = q * x + y, x
+        a, b = x, y
+        if a >= 1 << 128 or rng.random() < 0.15:
+            a = rng.getrandbits(rng.randrange(60, 128))
+            b = rng.randrange(0, a + 1)
+        sc.append({"g": "kern", "op": "kapply128", "m": mj, "a": tobytes(a), "b": tobytes(b)})
+        qs2 = [rng.choice([1, 2, 5]) for _ in range(rng.randrange(1, 8))]
+        m2 = cf_matrix(qs2)
+        if max(m2[:4]) < 1 << 31:
+            sc.append({"g": "kern", "op": "kcompose", "m1": mj,
+                       "m2": [tobytes(m2[0]), tobytes(m2[1]), tobytes(m2[2]), tobytes(m2[3]), m2[4]]})
+    return sc
